@@ -305,6 +305,14 @@ theorem getFile_hands_out_selected (fl : Flags) (id : Str) (r : Res) (hinv : Res
 theorem reachable_inv (ops : List Op) : ∀ p ∈ (run {} ops).res, ResInv p.2 :=
   run_inv ops {} stInv_init
 
+/-- In every reachable state at most one version of a resource is flagged as the current release: "the current
+    release" of the documented order is well defined (`Newest cur` in `Prescribed.current` is *the* flagged entry). -/
+theorem reachable_one_current_release (ops : List Op) :
+    ∀ p ∈ (run {} ops).res, ∀ a ∈ p.2.versions, ∀ b ∈ p.2.versions, a.cur = true → b.cur = true → a = b := by
+  intro p hp a ha b hb hac hbc
+  have h1 := run_all oneCurrent_preserved ops {} (stAll_init _) p hp
+  exact (reachable_inv ops p hp).1.eq_of_ver ha hb (h1 a ha b hb hac hbc)
+
 /-- After `SelectVersions` in any reachable state, every resource has selected the version the documented order
     prescribes for its versions, its index and the current registry flags. -/
 theorem history_select_prescribed (ops : List Op) :
